@@ -170,6 +170,20 @@ func secAlg(e *emitter) {
 			}
 		}
 	}
+	// the same key / COUNT / BEARER / DIRECTION again and again with OTHER lengths, shorter then longer (a keystream or a
+	// key schedule remembered from the call before must not be reused beyond what it covers)
+	for _, alg := range []uint8{1, 2} {
+		for _, dir := range []uint8{0, 1} {
+			base := e.bytes(70)
+			cnt := e.rng.Uint32()
+			for _, l := range []int{10, 5, 10, 7, 23, 3, 24, 1, 16, 15, 17, 64, 33, 64, 2, 70, 9, 12} {
+				secAlgCase(e, false, alg, keys[1], cnt, 3, dir, base[:l])
+			}
+			for _, l := range []int{10, 5, 10, 7, 23, 16, 15, 17, 33, 32} {
+				secAlgCase(e, true, alg, keys[1], cnt, 3, dir, base[:l])
+			}
+		}
+	}
 	// first use of every algorithm in a fresh process, by 12 goroutines at once
 	for i := 0; i < 24; i++ {
 		alg := uint8(1 + i%2)
